@@ -87,8 +87,14 @@ Example strict_nontrivial :
 Proof. vm_compute. reflexivity. Qed.
 
 (* ---------- where db/memory leaves the contract: one witness per excluded shape ---------- *)
-Definition diverges (ops : list op) : Prop := run_mem m_init ops <> run_spec s_init ops.
+(* Since the repairs of db/memory (iterator bounds, iterator positioning, recorded range deletes) no
+   divergence witness is left: the strict contract only excludes use of closed / unknown handles and
+   reads through a batch that was not created as an indexed batch (not expressible through db.Batch). *)
+Example strict_covers_batch_ranges :
+  in_contract_strict
+    [NewBatch false; BW 0 (WDelRange [B 1] [B 3]); Put [B 2] [B 1]; BSize 0; BWrite 0; Get [B 2];
+     NewBatch true; BW 1 (WPut [B 5] [B 6]); BW 1 (WDelRange [B 4] [B 9]); BGet 1 [B 5]; BW 1 (WPut [B 5] [B 7]); BGet 1 [B 5];
+     NewIter (SBatch 1) [] false; IMove 0 MFirst; IMove 0 MPrev; IMove 0 MPrev; IMove 0 MNext; IMove 0 MNext; IMove 0 MNext; IMove 0 MPrev;
+     Helper true [WPut [B 8] []; WDelRange [] [B 255]] (Some [B 8]) false; Has [B 5]] = true.
+Proof. vm_compute. reflexivity. Qed.
 
-Example mem_diverges_batch_range :
-  diverges [NewBatch false; BW 0 (WDelRange [B 1] [B 3]); Put [B 2] [B 1]; BWrite 0; Get [B 2]].
-Proof. vm_compute. discriminate. Qed.
